@@ -64,3 +64,12 @@ Check ACC_C13_mul_then_div : forall (TQ PQ : QFull F64), QLaws TQ -> QLaws PQ ->
     Rabs d1 <= u64 /\ Rabs d2 <= u64 /\ Rabs d3 <= u64 /\ Rabs d4 <= u64 /\
     B2R 53 1024 x1 = B2R 53 1024 a /\
     B2R 53 1024 (q_amount PQ y') = B2R 53 1024 a * (1 + d1) * (1 + d2) * (1 + d3) * (1 + d4).
+Check DEC_C13_mul_then_div : forall (TQ PQ : QFull DEC), QLaws TQ -> QLaws PQ ->
+  (forall x y, q_div TQ x y = HasRefUnit_div TQ x y) -> (forall x y, q_div PQ x y = HasRefUnit_div PQ x y) ->
+  forall (r : rate DEC) (q : Qt PQ) (y : Qt TQ) (y' : Qt PQ),
+  let a := dval (q_amount PQ q) in let t := dval (rt_term_amount r) in let p := dval (rt_per_unit_multiple r) in
+  In (rt_term_unit r) (u_iter TQ) -> In (rt_per_unit r) (u_iter PQ) -> q_unit PQ q = rt_per_unit r ->
+  Amount.Laws.dec_ok (q_amount PQ q) -> Amount.Laws.dec_ok (rt_term_amount r) -> Amount.Laws.dec_ok (rt_per_unit_multiple r) ->
+  Rate_mul TQ PQ r q = Ok y -> tmpl_Div_Qty_Rate TQ PQ y r = Ok y' ->
+  q_unit TQ y = rt_term_unit r /\ q_unit PQ y' = rt_per_unit r /\ t <> 0 /\ p <> 0 /\
+  Rabs (dval (q_amount PQ y') - a) <= half_ulp18 * ((Rabs p + 1) + Rabs p / Rabs t * (Rabs t + 1)).
